@@ -357,6 +357,7 @@ PY_DURATIONS = [   # text -> (years, months, microseconds of the rest) | None = 
     ("PT0.25M", (0, 0, 15 * 10**6)), ("P2DT0.1S", (0, 0, 2 * 86400 * 10**6 + 100000)),
     # fractions whose carry does not stop at a whole second / minute
     ("PT0.0001H", (0, 0, 360000)), ("PT1.0001H", (0, 0, 3600 * 10**6 + 360000)), ("P0.00001D", (0, 0, 864000)), ("P0.000001W", (0, 0, 604800)), ("P0.001W", (0, 0, 604800000)),
+    ("PT90S", (0, 0, 90 * 10**6)), ("PT150M", (0, 0, 9000 * 10**6)), ("P40D", (0, 0, 40 * 86400 * 10**6)), ("P10DT3725S", (0, 0, (10 * 86400 + 3725) * 10**6)),
     ("PT0.001M", (0, 0, 60000)), ("PT0.0125M", (0, 0, 750000)), ("P1DT0.51H", (0, 0, 86400 * 10**6 + 1836 * 10**6)), ("PT0.505H", (0, 0, 1818 * 10**6)),
     ("P1.5Y", None), ("P1,5Y", None), ("P1.5M", None), ("P1Y1,5M", None), ("PT1.5H30M", None), ("PT1,5H30M", None), ("P1.5DT1H", None), ("PT1.5M1S", None),
     ("P1W1D", None), ("P1WT1H", None), ("PT1M1H", None), ("P1D1Y", None), ("P1S", None), ("1D", None), ("PT1H1H", None),
@@ -450,6 +451,13 @@ def _rs_duration_tabulate(ctx) -> None:
                 bad.append(f"{text!r} is read as {d!r}, not as a duration")
                 continue
             us = (((d.get("weeks") * 7 + d.get("days")) * 24 + d.get("hours")) * 60 + d.get("minutes")) * 60 * 10**6 + d.get("seconds") * 10**6 + d.get("microseconds")
+            # parser.py reads the record through its getters remaining_days / remaining_seconds: they must hand out the fields
+            for getter, fld in (("remaining_days", "days"), ("remaining_seconds", "seconds")):
+                gf = [f_ for n_, f_ in mir.fns.items() if n_.endswith("::" + getter) and "__pymethod" not in n_ and "duration" in n_]
+                if len(gf) == 1:
+                    gv = mirexec.Machine(mir, sf).run(gf[0], [mirexec.Ref([d], 0)])
+                    if not (isinstance(gv, mirexec.Enum) and gv.variant == "Ok" and gv.payload[0] == d.get(fld)):
+                        bad.append(f"{text!r}: the record's {getter} answers {gv.payload[0] if isinstance(gv, mirexec.Enum) and gv.payload else gv!r}, its {fld} field is {d.get(fld)}")
             if (d.get("years"), d.get("months"), us) != want:
                 bad.append(f"{text!r} -> years={d.get('years')} months={d.get('months')} and {us} microseconds (expected {want[0]}, {want[1]}, {want[2]})")
     except (core.Unsupported, core.AnchorMissing, KeyError, TypeError, AttributeError, IndexError, ValueError, RecursionError) as e:
@@ -476,15 +484,36 @@ def _py_duration_tabulate(ctx) -> None:
     try:
         pat = re.compile(core.const("parsing.iso8601", "ISO8601_DURATION"), re.VERBOSE)
         consts = minieval.module_consts(m)
+        entry = m.func("parse_iso8601") if m.has_func("parse_iso8601") else None
+        try:
+            dt_pat = re.compile(core.const("parsing.iso8601", "ISO8601_DT"), re.VERBOSE)
+        except core.Unsupported:
+            entry = None
         bad, n = [], 0
         table = _duration_table(ctx)
         for text, want in table:
+            def dur(*a, **k):
+                # the recorded constructor call; a Duration is a timedelta: false when its length is zero
+                y_, mo_ = k.get("years", 0), k.get("months", 0)
+                rest = {x: v for x, v in k.items() if x not in ("years", "months")}
+                return minieval.Stub(_args=a, _kws=k, _types=(_dt.timedelta,), _truth=bool(a) or (_dt.timedelta(days=365 * y_ + 30 * mo_) + _dt.timedelta(**rest)) != _dt.timedelta(0))
             glob = {**consts, "ISO8601_DURATION": pat, "ParserError": ValueError, "ValueError": ValueError,
-                    "Duration": minieval.ClassStub(_new=lambda *a, **k: minieval.Stub(_args=a, _kws=k), _isa=lambda v: False)}
+                    "Duration": minieval.ClassStub(_new=dur, _isa=lambda v: isinstance(v, minieval.Stub) and hasattr(v, "_kws"))}
             funcs = {st.name: st for st in m.top() if isinstance(st, ast.FunctionDef)}
             n += 1
             try:
                 got = minieval.call(fn, [text], {}, {**funcs, "$globals": glob})
+                if entry is not None and got is not None:
+                    # the same string through the entry point parse_iso8601 (it tries the duration form first): the same value must come out
+                    g2 = {**glob, "ISO8601_DT": dt_pat, "datetime": minieval.Stub(datetime=_dt.datetime, date=_dt.date, time=_dt.time, timedelta=_dt.timedelta),
+                          "UTC": _dt.timezone.utc, "FixedTimezone": minieval.ClassStub(_new=lambda off, *a, **k: _dt.timezone(_dt.timedelta(seconds=off)), _isa=lambda v: False), "Timezone": None}
+                    try:
+                        via = minieval.call(entry, [text], {}, {**funcs, "$globals": g2})
+                    except minieval.Raised as e2:
+                        via = ("raise", e2.exc_name)
+                    if not (isinstance(via, minieval.Stub) and getattr(via, "_kws", None) == got._kws):
+                        bad.append(f"{text!r}: parse_iso8601 gives {via[1] if isinstance(via, tuple) else via!r} although the duration form is recognised ({got._kws})")
+                        continue
             except minieval.Raised as e:
                 if want is not None:
                     bad.append(f"{text!r} is refused ({e.exc_name}); it denotes years={want[0]} months={want[1]} and {want[2]} microseconds")
